@@ -4,13 +4,13 @@
 (* day 0, one of them in another security.  For every valid matching the every-share-once law   *)
 (* holds; scenarios (matchable or not) are emitted for the harness.                              *)
 EXTENDS Etrade, Json
-CONSTANTS MaxB, MaxT
+CONSTANTS MaxB, MaxT, TradeDays, PriceMs
 VARIABLES B, T, done
 vars == <<B, T, done>>
 Ben(day, sold, price) == [sec |-> "FOO", day |-> day, shares |-> RN(10), fmv |-> RN(100), sold |-> RN(sold), sprice |-> RDec(price, 1), fee |-> RDec(417, 2)]
 Benefits == { Ben(d, s, 1015) : d \in {0, 3}, s \in {2, 3} }
 Trades == { [sec |-> sec, td |-> d, sd |-> d + 2, shares |-> RN(q), price |-> RDec(p, 1), comm |-> RDec(5, 0)] :
-              sec \in {"FOO"}, d \in {0, 1, 5, 6}, q \in {1, 2, 3}, p \in {1010, 1020} }
+              sec \in {"FOO"}, d \in TradeDays, q \in {1, 2, 3}, p \in PriceMs }
            \cup { [sec |-> "BAR", td |-> 1, sd |-> 3, shares |-> RN(2), price |-> RDec(50, 0), comm |-> RZero] }
 Init == B = <<>> /\ T = <<>> /\ done = FALSE
 AddB == ~done /\ T = <<>> /\ Len(B) < MaxB /\ \E b \in Benefits : B' = Append(B, b) /\ UNCHANGED <<T, done>>
